@@ -191,3 +191,124 @@ def lit_gammas(nf, order):
     z3, z4, z5 = (Fraction(float(mp.zeta(k))) for k in (3, 4, 5))
     full = [L.gamma0(), L.gamma1(nf), L.gamma2(nf, z3), L.gamma3(nf, z3, z4, z5)]
     return full[:order]
+
+
+# ---------------------------------------------------------------------------
+# Couplings.a inside one fixed-nf patch: legs around the tau mass (used by C15 and C55)
+# ---------------------------------------------------------------------------
+MTAU2 = Fraction(1777, 1000) ** 2
+
+
+class LegRecorder:
+    """stands for Couplings.compute: an uninterpreted function of (a_ref, nf, nl, from, to) (same arguments -> same result symbols, shared
+    between the executions that are compared); records the legs requested."""
+
+    memo = None
+
+    def __init__(self, memo):
+        self.memo = memo
+        self.legs = []
+
+    def __call__(self, a_ref, nf, nl, scale_from, scale_to):
+        args = [SR(0) + a_ref[0], SR(0) + a_ref[1], SR(0) + nf, SR(0) + nl, SR(0) + scale_from, SR(0) + scale_to]
+        key = tuple(x.v.key() for x in args)
+        res = self.memo.get(key)
+        if res is None:
+            k = len(self.memo)
+            res = self.memo[key] = (SR.var("LEG%d_s" % k), SR.var("LEG%d_em" % k))
+        self.legs.append((args, res))
+        return symarr(list(res))
+
+
+def patch_couplings(cpl, order, em_running, mu0, nf=4, method="expanded"):
+    """real Couplings object in an FFNS-like atlas (no matching scale between reference and target), symbolic reference scale and couplings"""
+    from eko.quantities.couplings import CouplingEvolutionMethod, CouplingsInfo
+    from eko.quantities.heavy_quarks import QuarkMassScheme
+
+    info = CouplingsInfo(alphas=0.25, alphaem=0.0075, ref=(3.0, nf), em_running=bool(em_running) if isinstance(em_running, bool) else False)
+    meth = CouplingEvolutionMethod.EXACT if method == "exact" else CouplingEvolutionMethod.EXPANDED
+    thr = [0.0] * (nf - 3) + [realnp.inf] * (6 - nf)
+    sc = cpl.Couplings(info, order, meth, [1.0, 1.0, 1.0], QuarkMassScheme.POLE, thr)
+    sc.alphaem_running = em_running
+    sc.atlas.origin = (mu0, nf)
+    sc.a_ref = symarr([SR.var("aref_s"), SR.var("aref_em")])
+    return sc
+
+
+def _b(c):
+    return c if isinstance(c, bool) else bool(c)
+
+
+def case_c55_em_flag(log, orders=(1, 2, 3, 4)):
+    """C55 site C': the real Couplings.a at QED order 0 with the alpha_em-running flag a symbolic Boolean in two executions: the fixed-flavour legs
+    requested from `compute` and the returned couplings must be identical (in particular no split at the tau mass decided by the flag)."""
+    from symx.solver import explore, prove_zero, ZBool
+    import z3
+
+    cpl = cpl_module("eko.couplings")
+    cpl.float = sym_float
+    log.encode(cpl.Couplings.a)
+    D = Decider(log)
+    MODK = "harness.cplkit"
+
+    def mk(o):
+        def run():
+            mu0, s = SR.var("mu2_ref"), SR.var("mu2_to")
+            for x in (mu0, s):
+                assume(x - Fraction(1, 2), ">0")
+                assume(10000 - x, ">0")
+            memo = {}
+            outs = []
+            for tag in ("em_A", "em_B"):
+                sc = patch_couplings(cpl, (o, 0), ZBool(z3.Bool(tag)), mu0)
+                rec = LegRecorder(memo)
+                sc.compute = rec
+                r = sc.a(s, 4)
+                outs.append((rec.legs, [r[0], r[1]]))
+            (la, ra), (lb, rb) = outs
+            rp = (MODK, "replay_c55_em_flag", {"order": o})
+            what = "Couplings.a order (%d,0): em_running on/off" % o
+            v = prove_zero(SR(0 if len(la) == len(lb) else 1), "%s requests the same number of fixed-flavour legs (%d vs %d)" % (what, len(la), len(lb)))
+            D(v, key="Couplings.a:em_running", replay=rp, sampler=_sampler_tau)
+            if len(la) == len(lb):
+                for (xa, _r1), (xb, _r2) in zip(la, lb):
+                    for i, nm in ((0, "a_s in"), (1, "a_em in"), (2, "nf"), (4, "from"), (5, "to")):
+                        v = prove_zero(xa[i] - xb[i], "%s: leg argument %s identical" % (what, nm))
+                        D(v, key="Couplings.a:em_running", replay=rp, sampler=_sampler_tau)
+            for j in range(2):
+                v = prove_zero(SR(0) + ra[j] - rb[j], "%s gives the same couplings (entry %d)" % (what, j))
+                D(v, key="Couplings.a:em_running", replay=rp, sampler=_sampler_tau)
+            log.twin("domain")
+
+        return run
+
+    for o in orders:
+        _r, pm = explore(mk(o), max_paths=256)
+        log.path_stats(pm)
+
+
+def _sampler_tau(rng):
+    lo, hi = rnd(rng, 0.8, 3.0), rnd(rng, 3.3, 60)
+    a, b = (lo, hi) if rng.random() < 0.5 else (hi, lo)
+    return {"mu2_ref": a, "mu2_to": b, "a_s": rnd(rng, 0.012, 0.027), "a_em": rnd(rng, 0.0004, 0.0008, den=100000)}
+
+
+def replay_c55_em_flag(point, order):
+    """real Couplings, pure QCD, FFNS nf=4: em_running True vs False must give bit-comparable results (same code path)."""
+    import numpy as np
+    from eko.couplings import Couplings
+    from eko.quantities.couplings import CouplingEvolutionMethod, CouplingsInfo
+    from eko.quantities.heavy_quarks import QuarkMassScheme
+
+    m0, m1 = float(point.get("mu2_ref", 9.0)), float(point.get("mu2_to", 2.0))
+    if not (0.5 < m0 < 1e4 and 0.5 < m1 < 1e4):
+        return None
+    for meth in (CouplingEvolutionMethod.EXPANDED, CouplingEvolutionMethod.EXACT):
+        res = []
+        for flag in (True, False):
+            info = CouplingsInfo(alphas=0.25, alphaem=0.0075, ref=(m0**0.5, 4), em_running=flag)
+            sc = Couplings(info, (order, 0), meth, [1.0, 1.0, 1.0], QuarkMassScheme.POLE, [0.0, np.inf, np.inf])
+            res.append(sc.a(m1, 4))
+        if not np.allclose(res[0], res[1], rtol=1e-12, atol=0):
+            return {"detail": "pure QCD order (%d,0), %s, nf=4, mu0^2=%r -> mu^2=%r: em_running=True gives %r, em_running=False gives %r" % (order, meth.value, m0, m1, list(res[0]), list(res[1]))}
+    return None
